@@ -6,11 +6,12 @@ use std::sync::Arc;
 pub mod c01;
 pub mod c02;
 pub mod c03;
+pub mod c04;
 pub mod c19;
 pub mod common;
 
 pub fn all() -> Vec<Arc<dyn Prop>> {
-    vec![Arc::new(c01::C01), Arc::new(c02::C02), Arc::new(c03::C03), Arc::new(c19::C19)]
+    vec![Arc::new(c01::C01), Arc::new(c02::C02), Arc::new(c03::C03), Arc::new(c04::C04), Arc::new(c19::C19)]
 }
 
 pub fn find(id: &str) -> Option<Arc<dyn Prop>> {
